@@ -8,6 +8,7 @@ package main
 import (
 	"go/types"
 	"sort"
+	"strings"
 
 	"golang.org/x/tools/go/ssa"
 )
@@ -397,6 +398,67 @@ func c03MatchCalls(K *ssa.Function) []c03MatchCall {
 	return out
 }
 
+// c03OnDecodeFailure: the sink reads its member only on paths where decoding the document it reads from failed (the
+// error of the encoding/json call fed with the document's address, or of the module helper returning it, is non-nil).
+func c03OnDecodeFailure(s c03Sink) bool {
+	if s.Base == nil || s.At == nil {
+		return false
+	}
+	fn := s.At.Parent()
+	var errs []ssa.Value
+	addCall := func(call ssa.CallInstruction) {
+		if e := ErrOf(call); e != nil {
+			errs = append(errs, e)
+		}
+	}
+	switch b := s.Base.(type) {
+	case *ssa.Alloc:
+		for _, r := range *b.Referrers() {
+			if mi, isMI := r.(*ssa.MakeInterface); isMI {
+				for _, r2 := range *mi.Referrers() {
+					if call, isCall := r2.(ssa.CallInstruction); isCall {
+						if n := CalleeName(call); strings.HasPrefix(n, "encoding/json.") || strings.HasPrefix(n, "(*encoding/json.") {
+							addCall(call)
+						}
+					}
+				}
+			}
+		}
+		for _, st := range storesTo(b) {
+			if ex, isEx := st.Val.(*ssa.Extract); isEx {
+				if call, isCall := ex.Tuple.(*ssa.Call); isCall {
+					addCall(call)
+				}
+			}
+		}
+	case *ssa.Extract:
+		if call, isCall := b.Tuple.(*ssa.Call); isCall {
+			addCall(call)
+		}
+	}
+	var failed []Edge
+	for _, e := range errs {
+		if in, ok := e.(ssa.Instruction); !ok || in.Parent() != fn {
+			continue
+		}
+		_, nonNil, _ := NilTests(fn, Aliases(e))
+		failed = append(failed, nonNil...)
+	}
+	if len(failed) == 0 {
+		return false
+	}
+	cut := newCut().Edges(failed...)
+	if MustPass(s.At, cut) {
+		return true
+	}
+	for _, e := range s.Edges {
+		if c01MustPassEdge(e, cut) {
+			return true
+		}
+	}
+	return false
+}
+
 func c03IsContext(t types.Type) bool {
 	n, ok := t.(*types.Named)
 	return ok && n.Obj().Pkg() != nil && n.Obj().Pkg().Path() == "context" && n.Obj().Name() == "Context"
@@ -406,6 +468,14 @@ func c03IsContext(t types.Type) bool {
 // mutant applied (go test ./... in a scratch copy; content/file TestStore_Dir_OverwriteSymlink_RemovalFailed fails on the
 // pristine tree too when run as root and is disregarded).
 var c03CovMutants = []Mutant{
+	{Name: "dfs-stops-at-visited-node", File: "extendedcopy.go", // tests green (mutation sweep extendedcopy.go|cont-break|1)
+		Old:    "\t\t\t// skip the current node if it has been visited\n\t\t\tcontinue",
+		New:    "\t\t\t// skip the current node if it has been visited\n\t\t\tbreak",
+		Expect: "C03.R1.find-roots-shape|~.findRoots|dfs-runs-until-stack-empty"},
+	{Name: "index-type-read-only-when-decode-fails", File: "extendedcopy.go", // tests green (mutation sweep extendedcopy.go|neg-cond|45)
+		Old:    "\t\tif err := json.NewDecoder(rc).Decode(&index); err != nil {\n\t\t\treturn \"\", err\n\t\t}\n\t\treturn index.ArtifactType, nil",
+		New:    "\t\tif err := json.NewDecoder(rc).Decode(&index); err == nil {\n\t\t\treturn \"\", err\n\t\t}\n\t\treturn index.ArtifactType, nil",
+		Expect: "C03.R3.artifact-type-derivation|~.fetchArtifactType|handles-image-index"},
 	{Name: "untyped-predecessor-kept", File: "extendedcopy.go", // tests green
 		Old:    "\t\treturn regex.MatchString(desc.ArtifactType)\n",
 		New:    "\t\treturn desc.ArtifactType == \"\" || regex.MatchString(desc.ArtifactType)\n",
